@@ -172,10 +172,11 @@ def run(chk):
             ("two_kinds_two_keys_t3", dict(kinds=cg, keys=[1, 2], masks="FullMask", timeouts="TO_23", steps=8)),
             ("two_kinds_two_keys_all_masks", dict(kinds=cg, keys=[1, 2], masks="AllMasks", timeouts="TO_n23", steps=7, delta=1)),
             ("three_kinds_same_key", dict(kinds=["c", "g", "h"], keys=[1], masks="AllMasks", timeouts="TO_n23", steps=8, delta=1)),
-            ("repaired_all_masks", dict(kinds=cg, keys=[1, 2], masks="AllMasks", timeouts="TO_n23", steps=7, delta=1, kbk=True)),
         ]
     if not KEY_BY_KIND:
         cfgs.append(("repaired_per_kind_entries", dict(kinds=cg, keys=[1, 2], masks="FullMask", timeouts="TO_2", steps=7, kbk=True)))
+    if thorough and not KEY_BY_KIND:
+        cfgs.append(("repaired_all_masks", dict(kinds=cg, keys=[1, 2], masks="AllMasks", timeouts="TO_n23", steps=7, delta=1, kbk=True)))
     if thorough:
         cfgs.append(("overlapping_observers_2kinds", dict(kinds=cg, keys=[1], masks="FullMask", timeouts="TO_2", steps=8, observers=[1])))
     for name, kw in cfgs:
